@@ -72,7 +72,7 @@ def run(chk: Check, drv: Driver):
         full = [h for h in hist if len(h) <= 3]
         hist = full + rng.sample([h for h in hist if len(h) == 4], 3000)
         exhaustive_upto = 2
-    for _ in range(2000 if quick else 60000):
+    for _ in range(2000 if quick else 30000):
         hist.append([["eval", 0, rng.choice(KINDS)]] + [rng.choice(ops) for _ in range(4)])
     for _ in range(300 if quick else 3000):
         hist.append([rng.choice(ops) for _ in range(12 if quick else 30)])
@@ -88,7 +88,12 @@ def run(chk: Check, drv: Driver):
                                                      stdout=subprocess.PIPE, stderr=subprocess.PIPE, text=True)))
         results = []
         for ch, outp, p in procs:
-            out, err = p.communicate(timeout=1800)
+            try:
+                out, err = p.communicate(timeout=1800 if quick else 14400)
+            except subprocess.TimeoutExpired:
+                for _, _, q in procs:
+                    q.kill()
+                raise MachineryError("own_worker timed out (machine overloaded?)")
             if p.returncode != 0:
                 if p.returncode < 0:
                     chk.violation(f"process running ownership histories died with signal {-p.returncode}", {"stderr": err[-600:]})
